@@ -27,8 +27,8 @@ def subsets(items):
 
 
 class SymL3(SymL2):
-    def __init__(self, g: GSpec, differs: dict | None = None, max_indegree: int = 3):
-        super().__init__(g, differs=differs)
+    def __init__(self, g: GSpec, differs: dict | None = None, max_indegree: int = 3, policy: dict | None = None):
+        super().__init__(g, differs=differs, policy=policy)
         for n in g.nodes:
             if len(self.pa[n]) > max_indegree:
                 raise ValueError(f"in-degree of {n} exceeds {max_indegree}")
@@ -70,6 +70,8 @@ class SymL3(SymL2):
         return total
 
     def theta(self, pop, v, val, pa_vals, u_vals):
+        if v in self.policy.get(pop, ()):
+            return self._row(pname("sig", pop, v), 2)[val]
         m = self.mu(pop, v, (self._cfg_index(v, pa_vals),), u_vals)
         return m if val == 1 else ONE - m
 
